@@ -147,7 +147,10 @@ func c06rrun(r *kernel.Run, seed uint64) {
 	mgr := &contactRequestsManager{logger: zap.NewNop(), accountPrivateKey: bsk, metadataStore: m}
 	esk, epk, _ := crypto.GenerateEd25519Key(nil)
 	eraw, _ := epk.Raw()
-	type rec struct{ dir, idx int; frame []byte }
+	type rec struct {
+		dir, idx int
+		frame    []byte
+	}
 	var recorded []rec
 	var honestKeys [][]byte
 	nsessions := 1 + r.Choose(5)
